@@ -109,7 +109,7 @@ func (w *Worker) RunCloneCase(f1 int, fields []schemaField, property string, tho
 				kids = append(kids, k)
 			}
 		case "slice":
-			lst := []sx.Value{}
+			lst := make([]sx.Value, 0, shape+2) // spare capacity, as a slice built by append has
 			for i := 0; i < shape; i++ {
 				k := newSchema(title(fmt.Sprintf("%s[%d]", label, i)))
 				lst = append(lst, k)
@@ -304,6 +304,9 @@ func diffSchemas(m *sx.Machine, a, b *sx.Value, fields []schemaField, schemaT ty
 				if (va == nil) != (vb == nil) || len(va) != len(vb) {
 					return f.name + ": slice shape differs"
 				}
+				if cap(va) > 0 && cap(vb) > 0 && &va[:1][0] == &vb[:1][0] {
+					return f.name + ": the slice's backing array is shared (an append or assignment through one tree shows in the other)"
+				}
 				for k := range va {
 					if d := diffSchemas(m, va[k].(*sx.Value), vb[k].(*sx.Value), fields, schemaT); d != "" {
 						return fmt.Sprintf("%s[%d]: %s", f.name, k, d)
@@ -314,8 +317,8 @@ func diffSchemas(m *sx.Machine, a, b *sx.Value, fields []schemaField, schemaT ty
 				if (va == nil) != (vb == nil) || va.Len() != vb.Len() {
 					return f.name + ": map shape differs"
 				}
-				if va != nil && va == vb && va.Len() > 0 {
-					return f.name + ": the map itself is shared"
+				if va != nil && va == vb {
+					return f.name + ": the map itself is shared (an insertion through one tree shows in the other)"
 				}
 				for _, k := range va.Keys() {
 					ea, _ := va.Get(m, k)
@@ -371,7 +374,7 @@ func nativeCloneTree(sh cloneShape, fields []schemaField) *jsonschema.Schema {
 				kids = append(kids, k)
 			}
 		case "slice":
-			lst := []*jsonschema.Schema{}
+			lst := make([]*jsonschema.Schema, 0, shape+2)
 			for i := 0; i < shape; i++ {
 				k := mk(fmt.Sprintf("%s[%d]", label, i))
 				lst = append(lst, k)
@@ -482,6 +485,46 @@ func nativeCloneCheck(sh cloneShape, fields []schemaField) (bad bool, detail str
 	sort.Strings(tcl)
 	if fmt.Sprint(to) != fmt.Sprint(tcl) {
 		return true, "native: titles differ"
+	}
+	// schema-holding containers are not shared either (also when empty)
+	var shared string
+	var cmpC func(a, b *jsonschema.Schema, depth int)
+	cmpC = func(a, b *jsonschema.Schema, depth int) {
+		if a == nil || b == nil || depth > 6 || shared != "" {
+			return
+		}
+		va, vb := reflect.ValueOf(a).Elem(), reflect.ValueOf(b).Elem()
+		for _, f := range fields {
+			fa, fb := va.FieldByName(f.name), vb.FieldByName(f.name)
+			switch f.kind {
+			case "ptr":
+				if !fa.IsNil() && !fb.IsNil() {
+					cmpC(fa.Interface().(*jsonschema.Schema), fb.Interface().(*jsonschema.Schema), depth+1)
+				}
+			case "slice":
+				if !fa.IsNil() && !fb.IsNil() && fa.Cap() > 0 && fb.Cap() > 0 && fa.Pointer() == fb.Pointer() {
+					shared = f.name + ": slice backing array shared"
+				}
+				for i := 0; i < fa.Len() && i < fb.Len(); i++ {
+					cmpC(fa.Index(i).Interface().(*jsonschema.Schema), fb.Index(i).Interface().(*jsonschema.Schema), depth+1)
+				}
+			case "map":
+				if !fa.IsNil() && !fb.IsNil() && fa.Pointer() == fb.Pointer() {
+					shared = f.name + ": map shared"
+				}
+				if !fa.IsNil() && !fb.IsNil() {
+					for _, k := range fa.MapKeys() {
+						if e := fb.MapIndex(k); e.IsValid() {
+							cmpC(fa.MapIndex(k).Interface().(*jsonschema.Schema), e.Interface().(*jsonschema.Schema), depth+1)
+						}
+					}
+				}
+			}
+		}
+	}
+	cmpC(root, clone, 0)
+	if shared != "" {
+		return true, "native: " + shared
 	}
 	if b1, e1 := json.Marshal(root); e1 == nil {
 		if b2, e2 := json.Marshal(clone); e2 != nil || string(b1) != string(b2) {
